@@ -361,3 +361,28 @@ PROPS["C06"] = dict(
     level_note="Trusted: the scripted sources; wall-clock intervals taken around each call (only certain expiry outcomes are asserted).",
     assumptions=["records without LastAdvertisementTime are not generated"],
 )
+
+PROPS["C07"] = dict(
+    race=True,
+    race_is_violation=True,
+    shards={"quick": 8, "thorough": 16},
+    gomaxprocs=6,
+    level="exploration",
+    design_ref="DESIGN.md §2 C07",
+    technique="race detector + runtime monitors (per-reader version monotonicity, List snapshot membership, presence) under seeded delays at the publication points; logical no-wait test with a writer held open inside a source",
+    rule=("readers-vs-writers: 2..8 reader goroutines doing Get / List / GetResults on 6..40 always-reported providers while one writer "
+          "alternates 'advance some (or all) providers; Refresh' for 30..70 rounds over 1..2 sources, a miss-fetch goroutine looks up "
+          "unknown and newly appearing providers (growing the update map until it is merged), automatic refresh at 1 ms in a third of the "
+          "runs, and a verif tap injects seeded sleeps/yields immediately before each snapshot publication. Oracles: no data race with a "
+          "pcache frame; an always-reported provider is never missing; per reader, versions never go back; without auto refresh every List is "
+          "one of the version vectors published by a refresh that overlaps the call. reads-do-not-wait: a Refresh / miss-fetch / automatic "
+          "refresh is held open inside the source and 2..15 readers must each complete 1000 cached lookups BEFORE it is released (a watchdog "
+          "+ goroutine dumps only classify the failure). distinct_nontrivial = distinct run configurations."),
+    floors={"quick": {"reads": 100000, "reads_overlapping_a_refresh": 5000, "list_snapshot_checks": 2000, "publications": 1500, "nowait_refresh": 3, "nowait_miss-fetch": 3, "nowait_auto-refresh": 3,
+                      "lookups_completed_while_writer_held": 50000}},
+    watchdog_s={"quick": 900, "thorough": 7200},
+    level_text=("Exploration: stress runs of the real cache under the race detector with delays injected at the publication points; every read is "
+                "checked online against presence, monotonicity and snapshot oracles; blocking is decided logically (readers must finish while the "
+                "writer is provably still inside the source)."),
+    level_note="Trusted: the Go race detector (reports only what the workload reaches); the scripted sources; single explicit writer so the sequence of published states is known.",
+)
